@@ -418,3 +418,168 @@ Proof.
 Qed.
 
 End Facts.
+
+(* ------------------------------------------------------------------ *)
+(* the answers a thread collects are answers to ITS queries, in order  *)
+Definition pc_query (p : pc) : list qid :=
+  match p with
+  | PIdle => []
+  | PALookup q | PAStore q _ | PRHash q _ | PRAlloc q _ _ | PRTrial q _ _ _ _ | PRPublish q _ _ _ _
+  | PRCacheSet q _ _ | PRCacheOld q _ _ | PRFetch q _ | PRCacheGet q _ | PHTrial q _ _ => [q]
+  end.
+(* queries answered so far (oldest first), the one in flight, the ones still to ask *)
+Definition program (th : thread) : list qid :=
+  rev (map fst (t_done th)) ++ pc_query (t_pc th) ++ t_todo th.
+
+Lemma program_finish th q r : program (finish th q r) = rev (map fst (t_done th)) ++ [q] ++ t_todo th.
+Proof. unfold program, finish. cbn. now rewrite <- app_assoc. Qed.
+
+Lemma step_program cfg orc st th st' th' :
+  step_pc cfg orc st th = (st', th') -> program th' = program th /\ t_id th' = t_id th.
+Proof.
+  intros H. unfold step_pc in H.
+  destruct (t_pc th) eqn:Epc; unfold program at 2; rewrite Epc; cbn [pc_query].
+  - destruct (t_todo th) as [|q rest] eqn:Et.
+    + inversion H; subst. unfold program. rewrite Epc, Et. auto.
+    + destruct (c_mode cfg); try destruct (o_hard orc q); try destruct (alloc_h st);
+        inversion H; subst; clear H; rewrite ?program_finish; cbn; auto.
+  - destruct (aget _ _); [|destruct (c_mode cfg); [destruct (alloc_h st)|destruct (alloc_h st)|destruct (alloc_r st)|destruct (alloc_h st)|destruct (alloc_h st)]];
+      inversion H; subst; clear H; unfold program, dispatch; cbn; destruct (c_mode cfg); auto.
+  - inversion H; subst; clear H; unfold program, dispatch; cbn; destruct (c_mode cfg); auto.
+  - destruct (nth_error _ _); [destruct (_ || _); [destruct (c_cache_only cfg)|]|];
+      inversion H; subst; clear H; rewrite ?program_finish; auto.
+  - destruct (alloc_h st). inversion H; subst; clear H. auto.
+  - destruct (loop_ends _ _ _ _ _); [destruct (tree_of _ _)|];
+      inversion H; subst; clear H; rewrite ?program_finish; auto.
+  - destruct (c_ow cfg); [| |destruct m]; inversion H; subst; clear H; auto.
+  - inversion H; subst; clear H; auto.
+  - destruct (nth_error _ _); [destruct (aget _ _); [destruct (score_lt _ _)|]|];
+      inversion H; subst; clear H; rewrite ?program_finish; auto.
+  - destruct (nth_error _ _); [destruct (aget _ _)|];
+      inversion H; subst; clear H; rewrite ?program_finish; auto.
+  - destruct (nth_error _ _); [destruct (aget _ _)|];
+      inversion H; subst; clear H; rewrite ?program_finish; auto.
+  - destruct (loop_ends _ _ _ _ _); inversion H; subst; clear H; rewrite ?program_finish; auto.
+Qed.
+
+Lemma Forall2_upd_nth {A} (R : A -> A -> Prop) l i x y :
+  (forall a, R a a) -> nth_error l i = Some x -> R x y -> Forall2 R l (upd_nth i (fun _ => y) l).
+Proof.
+  intros Hr. revert i. induction l as [|a l IH]; intros [|i] Hn Hxy; cbn in *; try discriminate.
+  - inversion Hn; subst. constructor; auto. clear - Hr. induction l; constructor; auto.
+  - constructor; auto.
+Qed.
+
+Lemma Forall2_trans_eq {A B} (f : A -> B) l1 l2 l3 :
+  Forall2 (fun a b => f a = f b) l1 l2 -> Forall2 (fun a b => f a = f b) l2 l3 ->
+  Forall2 (fun a b => f a = f b) l1 l3.
+Proof.
+  intros H. revert l3. induction H; intros l3 H3; inversion H3; subst; constructor; eauto. congruence.
+Qed.
+
+(* for every schedule: same threads, same positions, and each thread's answered + in-flight
+   + pending queries are exactly the program it started with *)
+Theorem run_program cfg orc sched : forall st ths st' ths' tr,
+  run cfg orc sched st ths = (st', ths', tr) ->
+  Forall2 (fun a b => (program a, t_id a) = (program b, t_id b)) ths ths'.
+Proof.
+  induction sched as [|i sched IH]; intros st ths st' ths' tr H; cbn in H.
+  - inversion H; subst. clear. induction ths'; constructor; auto.
+  - destruct (nth_error ths i) as [th|] eqn:En; [|eauto].
+    destruct (finished th); [eauto|].
+    destruct (step_pc cfg orc st th) as [st1 th1] eqn:Es.
+    destruct (run cfg orc sched st1 _) as [[st2 ths2] tr2] eqn:Er. inversion H; subst; clear H.
+    apply IH in Er. eapply Forall2_trans_eq; [|exact Er].
+    apply Forall2_upd_nth with (x := th); auto.
+    destruct (step_program _ _ _ _ _ _ Es) as [-> ->]. reflexivity.
+Qed.
+
+(* ------------------------------------------------------------------ *)
+(* refutations (concrete histories, evaluated)                         *)
+
+(* finding 8: AutoOptimizer(cache=False) as it stands, ONE thread, two queries:
+   every trial of the second query scores worse than the best trial of the first *)
+Definition stale_cfg : config := mkC MAutoUncached OwFalse false 1.
+Definition stale_orc : oracle :=
+  mkO (fun q => q) (fun _ => true)
+      (fun q o k => match q, k with
+                    | 0, 0 => Some 5%Z | 0, _ => Some 7%Z
+                    | _, 2 => Some 9%Z | _, _ => Some 8%Z end)
+      (fun _ _ _ => false) (fun _ => None).
+Definition stale_threads : list thread := [start_thread 7 [0; 1]].
+Definition stale_sched : list nat := repeat 0 9.
+
+Lemma stale_run_results :
+  enc_results (snd (fst (run stale_cfg stale_orc stale_sched (init_state stale_cfg) stale_threads)))
+  = [[[0; 0; 0; 0; 0]; [1; 0; 0; 0; 0]]].
+Proof. vm_compute. reflexivity. Qed.
+
+Theorem auto_uncached_refuted :
+  exists cfg orc sched ths,
+    c_mode cfg = MAutoUncached /\ NoDup (map t_id ths) /\ Forall fresh_thread ths /\
+    length ths = 1 /\
+    ~ Forall (results_own orc) (snd (fst (run cfg orc sched (init_state cfg) ths))).
+Proof.
+  exists stale_cfg, stale_orc, stale_sched, stale_threads.
+  split; [reflexivity|]. split; [repeat constructor; cbn; tauto|].
+  split; [repeat constructor|]. split; [reflexivity|].
+  rewrite <- all_own_b_spec. vm_compute. discriminate.
+Qed.
+
+(* the hypothesis "distinct thread ids" is needed: two live threads with one id through one
+   shared reusable optimizer can fetch each other's tree *)
+Definition dup_cfg : config := mkC MReusable OwFalse false 0.
+Definition dup_orc : oracle :=
+  mkO (fun q => q) (fun _ => true) (fun _ _ _ => Some 1%Z) (fun _ _ _ => false) (fun _ => None).
+Theorem reusable_shared_tid_refuted :
+  exists sched ths, Forall fresh_thread ths /\
+    ~ Forall (results_own dup_orc) (snd (fst (run dup_cfg dup_orc sched (init_state dup_cfg) ths))).
+Proof.
+  exists ([0;0;0;0;0;0] ++ [1;1;1;1;1] ++ [0] ++ [1;1]), [start_thread 3 [0]; start_thread 3 [1]].
+  split; [repeat constructor|].
+  rewrite <- all_own_b_spec. vm_compute. discriminate.
+Qed.
+
+(* ------------------------------------------------------------------ *)
+(* the theorem per kind of optimizer object                            *)
+Lemma results_own_in_mode (m : mode) : m <> MAutoUncached ->
+  forall cfg orc sched ths st' ths' tr,
+  c_mode cfg = m -> NoDup (map t_id ths) -> Forall fresh_thread ths ->
+  run cfg orc sched (init_state cfg) ths = (st', ths', tr) ->
+  Forall (results_own orc) ths'.
+Proof.
+  intros Hm cfg orc sched ths st' ths' tr E Hnd Hf Hrun.
+  eapply all_results_own; eauto. congruence.
+Qed.
+
+Lemma reusable_returns_own_tree :
+  forall cfg orc sched ths st' ths' tr,
+  c_mode cfg = MReusable -> NoDup (map t_id ths) -> Forall fresh_thread ths ->
+  run cfg orc sched (init_state cfg) ths = (st', ths', tr) ->
+  Forall (results_own orc) ths'.
+Proof. apply results_own_in_mode. discriminate. Qed.
+
+Lemma auto_cached_returns_own_tree :
+  forall cfg orc sched ths st' ths' tr,
+  c_mode cfg = MAutoCached -> NoDup (map t_id ths) -> Forall fresh_thread ths ->
+  run cfg orc sched (init_state cfg) ths = (st', ths', tr) ->
+  Forall (results_own orc) ths'.
+Proof. apply results_own_in_mode. discriminate. Qed.
+
+Lemma presets_return_own_tree :
+  forall cfg orc sched ths st' ths' tr,
+  c_mode cfg = MPreset -> NoDup (map t_id ths) -> Forall fresh_thread ths ->
+  run cfg orc sched (init_state cfg) ths = (st', ths', tr) ->
+  Forall (results_own orc) ths'.
+Proof. apply results_own_in_mode. discriminate. Qed.
+
+Lemma auto_uncached_fresh_returns_own_tree :
+  forall cfg orc sched ths st' ths' tr,
+  c_mode cfg = MAutoUncachedFresh -> NoDup (map t_id ths) -> Forall fresh_thread ths ->
+  run cfg orc sched (init_state cfg) ths = (st', ths', tr) ->
+  Forall (results_own orc) ths'.
+Proof. apply results_own_in_mode. discriminate. Qed.
+
+(* verified checker for the results of an observed run *)
+Lemma all_own_b_sound orc ths : all_own_b orc ths = true -> Forall (results_own orc) ths.
+Proof. apply all_own_b_spec. Qed.
